@@ -27,7 +27,7 @@ type DcEnergyMeterRecord struct {
 }
 
 func DecodeDcEnergyMeterRecord(inp []byte) (ret DcEnergyMeterRecord, err error) {
-	if len(inp) < 12 {
+	if len(inp) < 11 {
 		err = ErrInputTooShort
 		return
 	}
@@ -58,8 +58,8 @@ func DecodeDcEnergyMeterRecord(inp []byte) (ret DcEnergyMeterRecord, err error) 
 		}
 	}
 
-	if v := (binary.LittleEndian.Uint32(inp[8:12]) >> 2) & 0x3FFFFF; v != 0x3FFFFF {
-		ret.BatteryCurrent = float64(int32(v)) / 1000
+	if v := (binary.LittleEndian.Uint32([]byte{inp[8], inp[9], inp[10], 0x00}) >> 2) & 0x3FFFFF; v != 0x3FFFFF {
+		ret.BatteryCurrent = float64(int32(v<<10)>>10) / 1000 // sign extend 22 bits
 	} else {
 		ret.BatteryCurrent = math.NaN()
 	}
